@@ -70,6 +70,12 @@ func ParseASN1PublicKey(data []byte) (*PublicKey, error) {
 		return nil, errInvalidAsn1Curve
 	}
 
+	// The BIT STRING MUST NOT have any unused bits, as the contents
+	// are an octet string (a SEC 1 encoded point).
+	if subjectPublicKey.BitLength != len(subjectPublicKey.Bytes)*8 {
+		return nil, errInvalidAsn1SPKI
+	}
+
 	encodedPoint := subjectPublicKey.RightAlign()
 	return NewPublicKey(encodedPoint)
 }
